@@ -380,5 +380,5 @@ pub fn through_text(e: &Expr, bytes: &[u8]) -> Option<Expr> {
         return None;
     }
     let text = crate::model::print::plain_text(&toks);
-    Expr::parse(&text).ok()
+    crate::core::parse_guarded(&text)?.ok()
 }
